@@ -35,7 +35,7 @@ Section c07.
 
   Lemma bal_inv_step w s s' : wf s -> bal_inv s -> step_inv fx w s s' -> bal_inv s'.
   Proof.
-    intros Hwf Hbi [t a e ok a' os ob Ha Hst Hact Hh _ _ _ _ _ _ _ _ _ _|Hact _ Hh _ _ _|ts _ Hact _ Hh _ _ _ _].
+    intros Hwf Hbi [t a e ok a' os ob Ha Hst Hact Hh _ _ _ _ _ _ _ _ _ _ _|Hact _ Hh _ _ _|ts _ Hact _ Hh _ _ _ _].
     - destruct (Hwf t a Ha) as [Hid _].
       assert (Hoth : forall t0 o, t0 <> t -> obs_target o = t0 -> nob o ob = 0).
       { intros t0 o Hne Ho. apply nob_other. intros x Hx ->.
@@ -156,7 +156,7 @@ Section c07.
           - intros a0 _ _ Hin. by apply elem_of_nil in Hin.
           - intros s0 l s1 Hr0 IH He a1 Ha1 Hk1.
             pose proof (wf_reachable fx false g roots s0 Hr0) as Hwf0.
-            destruct (exec_inv _ _ _ _ _ He) as [t0 a0 e ok a0' os ob Ha0 Hst Hact Hh _ _ _ _ _ _ _ _ _ _|Hact _ Hh _ _ _|ts _ Hact _ Hh _ _ _ _].
+            destruct (exec_inv _ _ _ _ _ He) as [t0 a0 e ok a0' os ob Ha0 Hst Hact Hh _ _ _ _ _ _ _ _ _ _ _|Hact _ Hh _ _ _|ts _ Hact _ Hh _ _ _ _].
             + rewrite Hact in Ha1. rewrite Hh. intros Hin. apply elem_of_app in Hin as [Hin|Hin].
               * destruct (decide (d = t0)) as [->|Hne].
                 -- rewrite lookup_insert in Ha1. injection Ha1 as <-.
